@@ -17,6 +17,7 @@ is consistent with the whole history, which is what the theorems quantify over.
   ack <id> <bytes> <decok> <code> <result> <message> <relayer> <fee> <sha>                    -> ok
   ackenc <code> <result> <message> <relayer> <fee> <ackid>    -> ok
   send <chain> <now> <pktid> <setSeqOk>                       -> ok|err <delta>
+  plant <chain> <pktid>                                       -> ok <delta>     (commitment injected with the keeper setter)
   recv <chain> <now> <pktid> <proofid> <truth> <rev> <h> <signer> <cb>                        -> ok|err <delta> S=<ackStatus>
   ackm <chain> <now> <pktid> <ackid> <proofid> <truth> <rev> <h> <signer> <evm>               -> ok|err <delta> S=<ackStatus>
   update <chain> <now> <client> <rev> <h> <root> <signer> <ok> -> ok|err L=<rev>-<h>
@@ -212,6 +213,19 @@ def step (st : St) (line : String) : St × String :=
         let d ← look st.decP bz
         pure (.sendPacket d.1 (okf == "1"), d.1))
       (fun _ _ => "")
+  | ["plant", chain, pid] =>
+    -- test-only state injection (not a message): the harness wrote the commitment of this packet directly into the
+    -- source chain's store with Keeper.SetPacketCommitment (sequences an honest sender cannot reach by sending)
+    match unhex chain, look st.pkts pid with
+    | some cn, some bz =>
+      match getChain st cn, look st.decP bz with
+      | some c, some d =>
+        let env := envOf st
+        let p := d.1
+        let c' := { c with commits := c.commits.set (commitKey p) (env.sha256 (env.encodePacket p)) }
+        (putChain st c', "ok " ++ deltaOf c c' (keysOf p))
+      | _, _ => (st, bad)
+    | _, _ => (st, bad)
   | ["recv", chain, now, pid, proofid, truth, rev, h, signer, cb] =>
     match unhex chain, look st.pkts pid, unhex proofid, u64? rev, u64? h, unhex signer, parseCb cb with
     | some cn, some bz, some proof, some rev, some h, some signer, some cb =>
